@@ -105,6 +105,8 @@ def resolve(name, seed, edit):
         held.eval(), held_pt.eval()               # the user looks at them between the solves
         cons_held = [c for k, c in spy.wrappers[-1].sent if k == 'scalar'][:3]
         [c.eval() for c in cons_held]
+        lmis_held = [m for k, m in spy.wrappers[-1].sent if k != 'scalar'][:2]
+        [m.eval() for m in lmis_held]
         EDITS[edit](pep, h)
         t3 = solve(pep)
         w3 = spy.wrappers[-1]
@@ -127,6 +129,17 @@ def resolve(name, seed, edit):
             if abs(cst.eval() - want) > 1e-6 * (1 + abs(want)):
                 fails.append(('C13', 'latest_values.constraint', 'a constraint held by the user evaluates to %.8g after the re-solve, %.8g at the latest solution' % (cst.eval(), want)))
                 break
+        Fp = np.array([x.eval() for x in Expression.list_of_leaf_expressions])
+        for m in lmis_held:
+            got = np.asarray(m.eval(), dtype=float)
+            wantm = np.zeros(m.shape)
+            for i in range(m.shape[0]):
+                for j in range(m.shape[1]):
+                    G, F, c = expr_coeffs(m[i, j])
+                    wantm[i, j] = float(np.sum(G * Gp) + F @ Fp + c)
+            if got.shape != wantm.shape or np.max(np.abs(got - wantm), initial=0) > 1e-6 * (1 + np.max(np.abs(wantm), initial=0)):
+                fails.append(('C13', 'latest_values.lmi', 'an LMI held by the user does not evaluate to the latest solution after the re-solve'))
+                break
         check_certificate(pep, t3, w3, fails, lmi_symmetric=h.get('symmetric_as_written', True) and h.get('lmi_symmetric_as_written', True))
     finally:
         spy.remove()
@@ -138,19 +151,29 @@ def resolve_after_none(seed):
     fails = []
     spy = Spy().install()
     try:
-        pep, h = models.build('T_gd_ssc', seed)
+        template = 'T_gd_ssc' if seed % 2 == 0 else 'T_user_lmi'
+        pep, h = models.build(template, seed)
         solve(pep)
         x = h['points'][1]
-        e = h['exprs'][0]
-        x.eval(), e.eval()
-        pep.add_constraint(pep.list_of_performance_metrics[0] <= -1)        # infeasible: a squared distance / gap below -1
+        e = h['exprs'][1] if template == 'T_user_lmi' else h['exprs'][0]
+        held = [('derived point', x.eval), ('expression', e.eval)]
+        c0 = pep.list_of_constraints[0] if pep.list_of_constraints else None
+        if c0 is not None:
+            held.append(('constraint', c0.eval))
+        for m in h.get('lmis', []):
+            held.append(('LMI', m.eval))
+        for _, fn in held:
+            fn()                                                              # read after the successful solve (values get stored)
+        if template == 'T_user_lmi':
+            pep.add_constraint(e <= -1)                                       # infeasible: a squared distance below -1
+        else:
+            pep.add_constraint(pep.list_of_performance_metrics[0] <= -1)      # infeasible: a squared distance / gap below -1
         t = solve(pep)
         if t is not None:
             fails.append(('C13', 'none_after_edit', 'an infeasible re-solve returned %r' % (t,)))
         else:
             from PEPit.point import Point
-            for what, fn in (('leaf point', Point.list_of_leaf_points[0].eval), ('derived point', x.eval), ('expression', e.eval),
-                             ('objective', pep.objective.eval)):
+            for what, fn in [('leaf point', Point.list_of_leaf_points[0].eval)] + held + [('objective', pep.objective.eval)]:
                 try:
                     v = fn()
                     fails.append(('C13', 'stale_after_none', '%s still evaluates to a number of the earlier solve after a solve that found no value' % what))
@@ -159,7 +182,7 @@ def resolve_after_none(seed):
                     pass
     finally:
         spy.remove()
-    return {'template': 'T_gd_ssc', 'seed': seed, 'scenario': 'none-after-success'}, fails
+    return {'template': template, 'seed': seed, 'scenario': 'none-after-success'}, fails
 
 
 # ------------------------------------------------------------------------------------------------ C14
@@ -296,6 +319,23 @@ def invalid_options(seed):
             pass
         except Exception as e:
             fails.append(('C16', 'invalid_option.exception', 'invalid option %r raised %s, not ValueError' % (kw, type(e).__name__)))
+    # options of the primitive steps (real DSL objects): an unknown value must be rejected, whatever its spelling or type
+    from PEPit import PEP
+    from PEPit.functions import SmoothStronglyConvexFunction
+    from PEPit.primitive_steps import inexact_gradient_step, inexact_proximal_step
+    for bad in ('Relative', 'rel', '', None, 2, 'ABSOLUTE'):
+        p = PEP()
+        f = p.declare_function(SmoothStronglyConvexFunction, L=1., mu=.1)
+        x0 = p.set_initial_point()
+        for step, call in (('inexact_gradient_step(notion=%r)' % (bad,), lambda: inexact_gradient_step(x0, f, gamma=1., epsilon=.1, notion=bad)),
+                           ('inexact_proximal_step(opt=%r)' % (bad,), lambda: inexact_proximal_step(x0, f, 1., opt=bad))):
+            try:
+                call()
+                fails.append(('C16', 'invalid_option.step', 'invalid option accepted by %s' % step))
+            except ValueError:
+                pass
+            except Exception as e:
+                fails.append(('C16', 'invalid_option.step.exception', '%s raised %s, not ValueError' % (step, type(e).__name__)))
     return {'template': 'T_gd_ssc', 'seed': seed, 'scenario': 'invalid-options'}, fails
 
 
